@@ -259,7 +259,10 @@ impl<const D: usize> GlobalTopologyModel<D> for ToroidalModel<D> {
             if !coord.is_finite() {
                 return Err(GlobalTopologyModelError::NonFiniteCoordinate { axis, value: coord });
             }
+            // `rem_euclid` returns `period` itself for tiny negative inputs (r + period rounds
+            // up); keep the result inside the half-open fundamental domain [0, period).
             let wrapped = coord.rem_euclid(period);
+            let wrapped = if wrapped >= period { 0.0 } else { wrapped };
             *coord_ref = <T as NumCast>::from(wrapped).ok_or(
                 GlobalTopologyModelError::ScalarConversion {
                     axis,
